@@ -1,3 +1,5 @@
+//go:build verif
+
 // Package e2res is engine E2 "ressim": ech.Resolver -> dns.DoH (real
 // go-retryablehttp client, hook H1) -> simdoh zone universe, on the virtual
 // clock. It decides C12 (decoding terminates within bounds; the resolver
@@ -44,9 +46,9 @@ type Engine struct{}
 func (Engine) Name() string { return "e2res" }
 
 var runs = map[string][2]int{ // quick, thorough
-	"C12": {160, 16000},
-	"C14": {6000, 900000},
-	"C16": {3000, 400000},
+	"C12": {160, 5000}, // plans; a plan is 10^3 .. 3*10^5 evaluations (measured: quick 1.8 M, thorough ~250 M evaluations)
+	"C14": {6000, 800000},
+	"C16": {2400, 250000},
 }
 
 func (Engine) Runs(prop, tier string) int {
